@@ -17,6 +17,8 @@ type Case struct {
 	Doc   string `json:"doc"`
 	Patch string `json:"patch"`
 	Neg   bool   `json:"support_negative_indices"`
+	// NoEsc: ApplyOptions.EscapeHTML off (a matter of spelling only: the value must not depend on it)
+	NoEsc bool `json:"escape_html_off,omitempty"`
 }
 
 var unit = ev.Unit[Case]{
@@ -42,7 +44,7 @@ var unit = ev.Unit[Case]{
 		ops := g.Seq(t, doc, ref.Opts{Neg: neg}, 0, maxOps, 2)
 		esc := rapid.Bool().Draw(t, "spell")
 		dt, pt := gen.Texts(t, doc, ref.OpsTree(ops), esc, "sp")
-		return Case{Doc: dt, Patch: pt, Neg: neg}
+		return Case{Doc: dt, Patch: pt, Neg: neg, NoEsc: gen.OneIn(t, 4, "noesc")}
 	},
 	Check: check,
 }
@@ -62,6 +64,7 @@ func check(c Case) ev.Verdict {
 	}
 	o := lib.Defaults()
 	o.Neg = c.Neg
+	o.Esc = !c.NoEsc
 	want := ref.Apply(doc, ops, o.Ref())
 	got := lib.Apply(c.Doc, c.Patch, o)
 	if want.OutOfDomain() {
@@ -77,6 +80,9 @@ func check(c Case) ev.Verdict {
 	negc := "neg=off"
 	if c.Neg {
 		negc = "neg=on"
+	}
+	if c.NoEsc {
+		negc += "/escape-html-off"
 	}
 	if !want.OK() {
 		op := ops[want.FailAt]
